@@ -90,10 +90,26 @@ type Env struct {
 	Gate func(path string)
 	// Quiet disables event logging (concurrency workloads log per goroutine instead).
 	Quiet bool
+	// MaxResolves bounds the resolver invocations of one request (0 = 200000):
+	// beyond it every resolver fails, so a library defect that makes an
+	// execution unbounded (e.g. a cyclic plan) ends as a reported mismatch
+	// instead of exhausting memory.
+	MaxResolves int64
+	resolves    atomic.Int64
 }
 
-func (e *Env) SetOutcomes(o *values.Outcomes) { e.outcomes.Store(o) }
-func (e *Env) Outcomes() *values.Outcomes     { return e.outcomes.Load() }
+func (e *Env) SetOutcomes(o *values.Outcomes) { e.outcomes.Store(o); e.resolves.Store(0) }
+
+// Runaway reports whether the last request exceeded MaxResolves.
+func (e *Env) Runaway() bool { return e.resolves.Load() > e.maxResolves() }
+
+func (e *Env) maxResolves() int64 {
+	if e.MaxResolves > 0 {
+		return e.MaxResolves
+	}
+	return 200000
+}
+func (e *Env) Outcomes() *values.Outcomes { return e.outcomes.Load() }
 
 // PathString joins a response path with "/".
 func PathString(p *graphql.ResponsePath) string {
@@ -173,6 +189,9 @@ func sourceID(src interface{}) string {
 // resolver returns the instrumented resolve function of one object field.
 func (e *Env) resolver(typeName string, fd *model.FieldDef) graphql.FieldResolveFn {
 	return func(p graphql.ResolveParams) (interface{}, error) {
+		if e.resolves.Add(1) > e.maxResolves() {
+			return nil, errors.New("harness: runaway execution (more resolver invocations than any document of this size can need)")
+		}
 		path := PathString(p.Info.Path)
 		o := e.Outcomes()
 		kind := o.At(path)
